@@ -1,11 +1,16 @@
 import CCVerif.Model.Extract
 import CCVerif.Lemmas.Extract
+import CCVerif.Lemmas.ExtractGen
+import CCVerif.Lemmas.ExtractGenFrag
 /-!
 # C13 — basis and maximal-part extraction return closed, complete, well-formed schemas
 
-Selection logic only (which constituents are copied, in which order); the copy itself and the
-alias renumbering are covered by C08/C09, status/type preservation by the implementation-level
-oracle of the check.
+First part (`namespace CCVerif.Extract`): the selection logic (which constituents are copied, in which
+order). Second part (`namespace CCVerif.ExtractGen`, end of the file): the COPY step — bulk `InsertCopy`
+into an empty schema, then `ResetAliases` — modelled on the generic schema machine
+(`Model/ExtractGen.lean`): `extract_renaming_exact`, `extract_status_type_preserved` (+ `_ren`, `_frag`),
+`extract_noCapture_needed_counterexample`, `skeleton_locality_needed_counterexample`. The
+implementation-level oracle of the check (status / typification of the real result) stays in place.
 -/
 namespace CCVerif.Extract
 
@@ -260,3 +265,243 @@ example : ∀ u, u ∈ [1, 2, 3, 6] ↔ ∃ a ∈ [6, 6], DepOf srcDemo u a :=
   (basis_spec srcDemo [6, 6] _ (by decide) (by decide)).1
 
 end CCVerif.Extract
+
+/-! # the COPY step: bulk `InsertCopy` into an empty schema, then `ResetAliases`
+
+Model: `Model/ExtractGen.lean` (`copyOut`, `opExtractBasis`, `opMaxPart`) on the generic schema machine of
+C07/C08 (`Model/SchemaGen.lean`: the per-constituent analysis is a parameter). The selection `sel` is what the
+membership theorems above characterise (`basis_spec` / `maxPart_spec`: the list is a sublist of the source list,
+closed under dependencies); `cs` are the selected constituents `source.GetRS(uid)` in that order.
+Hypotheses on the source: `SourceOk` (aliases pairwise distinct and well formed for their kind — the identity
+invariant of `RSCore`, C09) and `BasesFirst` (the list order respects the priority of base sets — the `CstList`
+invariant, C09). No hypothesis on the name generator: a run in which it hands out a taken name is `none`. -/
+namespace CCVerif.ExtractGen
+open CCVerif CCVerif.SchemaGen
+open CCVerif.Schema (Kind lookup)
+
+/-- **extract_renaming_exact.** There is ONE renaming `ρ = renOf (aliasTable g cs)` — an explicit function of
+the selected constituents and the name rule: in list order every constituent gets the name the rule generates
+for its kind given the names handed out before (`canon`) — such that: only selected aliases are renamed (the
+keys of the table); the result list is the selection, in the same order; the result store consists exactly of
+the selected constituents, each with its uid and kind, the alias `ρ alias` and the definition
+`TranslateRS(definition, table)` (every mention of a selected alias renamed once, nothing else: C08
+`translateRS_tokens`); `ρ` is injective on the selected aliases; uids of the result are pairwise distinct. -/
+theorem extract_renaming_exact {D I : Type} [DecidableEq D] {A : Analysis D I} {g : Names} (hA : Lawful A)
+    {src : St D I} (hok : SourceOk g src) {sel : List Nat} (hsel : sel.Nodup) {cs : List (Cst D)}
+    (hcs : selectedCsts src sel = some cs) (hbf : BasesFirst cs) {res : Sch D I}
+    (h : copyOut A g src sel = some res) :
+    (∀ p ∈ aliasTable g cs, p.1 ∈ cs.map (·.alias)) ∧
+    res.order = sel ∧
+    (∀ x, x ∈ res.st.store ↔ ∃ c ∈ cs, x = renCstBy A (aliasTable g cs) c) ∧
+    (uids res.st.store).Nodup ∧
+    cs.map (fun c => renOf (aliasTable g cs) c.alias) = canon g (cs.map (·.kind)) [] ∧
+    (∀ c ∈ cs, ∀ d ∈ cs, renOf (aliasTable g cs) c.alias = renOf (aliasTable g cs) d.alias → c = d) := by
+  obtain ⟨st1, r, w1, hst, hinv, htab, hord, hres⟩ := copyOut_spec hA hok hsel hcs hbf h
+  rw [htab] at hres
+  have wres : WF A res.st := by rw [hres]; exact w1.substitute hA _
+  refine ⟨fun p hp => hinv.keys p (by rw [htab]; exact hp), hord, ?_, wres.base.nodup, ?_, ?_⟩
+  · intro x
+    rw [hres, substitute_store hA w1, List.mem_map]
+    constructor
+    · rintro ⟨c, hc, e⟩
+      exact ⟨c, (hst c).1 hc, e.symm⟩
+    · rintro ⟨c, hc, e⟩
+      exact ⟨c, (hst c).2 hc, e.symm⟩
+  · have := hinv.canon []
+    rw [List.append_nil, canon, List.append_nil, htab] at this
+    exact this.symm
+  · have := hinv.nodup
+    rw [htab] at this
+    exact inj_of_nodup_map this
+
+/-- **extract_status_type_preserved_ren** (the form of C08's `substitute_iso_generic`). For every analysis that
+is `Lawful` (C07) and equivariant (`Q : Equivariance A`, C08), every well-formed source, a selection that is
+closed (every mention of a selected constituent that resolves in the source resolves to a selected one — proved
+above for both operations) and whose analysis does not read the skeleton outside the selection
+(`SkelLocalOn`, see `skeleton_locality_needed_counterexample`), and every admissible renaming `r` that acts like
+the table of `ResetAliases` on the names that occur in the selection: each result entry is the source entry
+renamed by `r` — same status (`Q.ok_ren`), typification with the aliases substituted. -/
+theorem extract_status_type_preserved_ren {D I : Type} [DecidableEq D] {A : Analysis D I} {g : Names}
+    (hA : Lawful A) (Q : Equivariance A) {src : St D I} (hwf : WF A src) (hok : SourceOk g src)
+    {sel : List Nat} (hsel : sel.Nodup) {cs : List (Cst D)} (hcs : selectedCsts src sel = some cs)
+    (hbf : BasesFirst cs) {res : Sch D I} (h : copyOut A g src sel = some res)
+    (hcl : Closed A src cs) (hsk : ∀ s1, (∀ x, x ∈ s1 ↔ x ∈ cs) → SkelLocalOn A src.store s1)
+    (r : Q.Ren) (hg : ∀ c ∈ cs, Q.Good r c)
+    (hagree : ∀ n ∈ namesOfG A cs, Q.app r n = renOf (aliasTable g cs) n) :
+    ∀ c ∈ cs, res.st.infoFor A c.uid = Q.renI r (src.infoFor A c.uid) :=
+  copyOut_info hA Q hwf hok hsel hcs hbf h hcl hsk r hg hagree
+
+/-- **extract_status_type_preserved.** The same with the proviso of the property EXPLICIT: `NoCapture` — no
+definition of the selection mentions a name that resolved to nothing in the source and coincides with an alias
+handed out to the result (the recorded finding C13-unresolved-capture) — makes the table injective on the names
+of the selection; `hadm` asks that the analysis admits the table as a renaming whenever it is injective
+(discharged for the fragment below; for the type checker it is the name-shape condition of C08). -/
+theorem extract_status_type_preserved {D I : Type} [DecidableEq D] {A : Analysis D I} {g : Names}
+    (hA : Lawful A) (Q : Equivariance A) {src : St D I} (hwf : WF A src) (hok : SourceOk g src)
+    {sel : List Nat} (hsel : sel.Nodup) {cs : List (Cst D)} (hcs : selectedCsts src sel = some cs)
+    (hbf : BasesFirst cs) {res : Sch D I} (h : copyOut A g src sel = some res)
+    (hcl : Closed A src cs) (hsk : ∀ s1, (∀ x, x ∈ s1 ↔ x ∈ cs) → SkelLocalOn A src.store s1)
+    (hnc : NoCapture A g src cs)
+    (hadm : (∀ a ∈ namesOfG A cs, ∀ b ∈ namesOfG A cs,
+        renOf (aliasTable g cs) a = renOf (aliasTable g cs) b → a = b) →
+      ∃ r : Q.Ren, (∀ c ∈ cs, Q.Good r c) ∧ ∀ n ∈ namesOfG A cs, Q.app r n = renOf (aliasTable g cs) n) :
+    ∃ r : Q.Ren, (∀ c ∈ cs, Q.Good r c) ∧ (∀ n ∈ namesOfG A cs, Q.app r n = renOf (aliasTable g cs) n) ∧
+      ∀ c ∈ cs, res.st.infoFor A c.uid = Q.renI r (src.infoFor A c.uid) :=
+  copyOut_info_noCapture hA Q hwf hok hsel hcs hbf h hcl hsk hnc hadm
+
+/-- **extract_status_type_preserved_frag.** The fragment analysis of C07 (`fragA`, `fragEquivariance`): closure
+and `NoCapture` suffice — there is a bijection of names that acts like the table on every name of the selection
+and every result entry is the source entry with that bijection applied to the typification (status kept). -/
+theorem extract_status_type_preserved_frag {g : Names} {src : St Schema.Def Schema.Info} (hwf : WF fragA src)
+    (hok : SourceOk g src) {sel : List Nat} (hsel : sel.Nodup) {cs : List (Cst Schema.Def)}
+    (hcs : selectedCsts src sel = some cs) (hbf : BasesFirst cs) {res : Sch Schema.Def Schema.Info}
+    (h : copyOut fragA g src sel = some res) (hcl : Closed fragA src cs) (hnc : NoCapture fragA g src cs) :
+    ∃ b : Bij, (∀ n ∈ namesOfG fragA cs, b.f n = renOf (aliasTable g cs) n) ∧
+      ∀ c ∈ cs, res.st.infoFor fragA c.uid = renInfo b.f (src.infoFor fragA c.uid) :=
+  copyOut_info_frag hwf hok hsel hcs hbf h hcl hnc
+
+/-! ### closed instances -/
+
+/-- decidable form of `Closed` -/
+def closedB {D I : Type} (A : Analysis D I) (src : St D I) (cs : List (Cst D)) : Bool :=
+  cs.all fun c => (A.mentions c.defn).all fun m =>
+    match findAliasL src.store m with
+    | some v => (uids cs).contains v
+    | none => true
+
+theorem closed_of_closedB {D I : Type} {A : Analysis D I} {src : St D I} {cs : List (Cst D)}
+    (h : closedB A src cs = true) : Closed A src cs := by
+  intro c hc m hm v hv
+  have := List.all_eq_true.1 (List.all_eq_true.1 h c hc) m hm
+  rw [hv] at this
+  simpa using this
+
+instance {D I : Type} (A : Analysis D I) (g : Names) (src : St D I) (cs : List (Cst D)) :
+    Decidable (NoCapture A g src cs) := by unfold NoCapture; exact inferInstance
+
+instance {D : Type} (cs : List (Cst D)) : Decidable (BasesFirst cs) := by unfold BasesFirst; exact inferInstance
+
+/-- the list `X1 D2 D1` with `D1 := X1`, `D2 := D1` (uids 1, 3, 2) -/
+def srcX1D2D1G : St Schema.Def Schema.Info :=
+  run fragA [.insert ⟨1, "X1", .base, .empty⟩, .insert ⟨2, "D1", .term, .union ["X1"]⟩,
+    .insert ⟨3, "D2", .term, .union ["D1"]⟩]
+
+/-- the maximal part over `{X1}` is copied in the order `X1 D2 D1`; `ResetAliases` numbers in list order, so
+`D2` becomes `D1` and `D1` becomes `D2` (a swap), and the mentions follow -/
+theorem extract_copy_X1D2D1_example :
+    (copyOut fragA realNames srcX1D2D1G [1, 3, 2]).map (fun r => (r.order, r.st.store, r.st.report fragA)) =
+      some ([1, 3, 2],
+        [⟨1, "X1", .base, .empty⟩, ⟨2, "D2", .term, .union ["X1"]⟩, ⟨3, "D1", .term, .union ["D2"]⟩],
+        [(1, ⟨.verified, some "X1"⟩), (2, ⟨.verified, some "X1"⟩), (3, ⟨.verified, some "X1"⟩)]) ∧
+    aliasTable realNames ([⟨1, "X1", .base, .empty⟩, ⟨3, "D2", .term, .union ["D1"]⟩,
+      ⟨2, "D1", .term, .union ["X1"]⟩] : List (Cst Schema.Def)) = [("D2", "D1"), ("D1", "D2")] := by
+  decide
+
+/-- non-vacuity of the theorems of this section on that instance: every hypothesis holds and the copy succeeds -/
+example : WF fragA srcX1D2D1G ∧ SourceOk realNames srcX1D2D1G ∧
+    selectedCsts srcX1D2D1G [1, 3, 2] = some [⟨1, "X1", .base, .empty⟩, ⟨3, "D2", .term, .union ["D1"]⟩,
+      ⟨2, "D1", .term, .union ["X1"]⟩] ∧
+    BasesFirst ([⟨1, "X1", .base, .empty⟩, ⟨3, "D2", .term, .union ["D1"]⟩,
+      ⟨2, "D1", .term, .union ["X1"]⟩] : List (Cst Schema.Def)) ∧
+    Closed fragA srcX1D2D1G [⟨1, "X1", .base, .empty⟩, ⟨3, "D2", .term, .union ["D1"]⟩,
+      ⟨2, "D1", .term, .union ["X1"]⟩] ∧
+    NoCapture fragA realNames srcX1D2D1G [⟨1, "X1", .base, .empty⟩, ⟨3, "D2", .term, .union ["D1"]⟩,
+      ⟨2, "D1", .term, .union ["X1"]⟩] ∧
+    (copyOut fragA realNames srcX1D2D1G [1, 3, 2]).isSome = true :=
+  ⟨WF.run fragA_lawful (by decide), ⟨by decide, by decide⟩, by decide, by decide,
+    closed_of_closedB (by decide), by decide, by decide⟩
+
+/-- `X1`, `X2`, `D1 := X2 ∪ X9` (`X9` unresolved), `D2 := X1` -/
+def srcRenumberG : St Schema.Def Schema.Info :=
+  run fragA [.insert ⟨1, "X1", .base, .empty⟩, .insert ⟨2, "X2", .base, .empty⟩,
+    .insert ⟨3, "D1", .term, .union ["X2", "X2"]⟩, .insert ⟨4, "D2", .term, .union ["X1"]⟩,
+    .insert ⟨5, "D3", .term, .union ["D1", "X9"]⟩]
+
+/-- a basis extraction with renumbering: the basis of `D3` is `X2 D1 D3`; `X2` becomes `X1`, `D3` becomes
+`D2`; `D1` keeps status and gets the typification `X1` (= `ρ X2`), the incorrect `D3` stays incorrect and its
+unresolved mention `X9` is untouched -/
+theorem extract_copy_renumber_example :
+    (copyOut fragA realNames srcRenumberG [2, 3, 5]).map (fun r => (r.order, r.st.store, r.st.report fragA)) =
+      some ([2, 3, 5],
+        [⟨2, "X1", .base, .empty⟩, ⟨3, "D1", .term, .union ["X1", "X1"]⟩, ⟨5, "D2", .term, .union ["D1", "X9"]⟩],
+        [(2, ⟨.verified, some "X1"⟩), (3, ⟨.verified, some "X1"⟩), (5, ⟨.incorrect, none⟩)]) ∧
+    srcRenumberG.report fragA = [(1, ⟨.verified, some "X1"⟩), (2, ⟨.verified, some "X2"⟩),
+      (3, ⟨.verified, some "X2"⟩), (4, ⟨.verified, some "X1"⟩), (5, ⟨.incorrect, none⟩)] := by
+  decide
+
+example : WF fragA srcRenumberG ∧ SourceOk realNames srcRenumberG ∧
+    selectedCsts srcRenumberG [2, 3, 5] = some [⟨2, "X2", .base, .empty⟩, ⟨3, "D1", .term, .union ["X2", "X2"]⟩,
+      ⟨5, "D3", .term, .union ["D1", "X9"]⟩] ∧
+    Closed fragA srcRenumberG [⟨2, "X2", .base, .empty⟩, ⟨3, "D1", .term, .union ["X2", "X2"]⟩,
+      ⟨5, "D3", .term, .union ["D1", "X9"]⟩] ∧
+    NoCapture fragA realNames srcRenumberG [⟨2, "X2", .base, .empty⟩, ⟨3, "D1", .term, .union ["X2", "X2"]⟩,
+      ⟨5, "D3", .term, .union ["D1", "X9"]⟩] :=
+  ⟨WF.run fragA_lawful (by decide), ⟨by decide, by decide⟩, by decide, closed_of_closedB (by decide), by decide⟩
+
+/-- `X2`, `D1 := X2 ∪ X1` where `X1` denotes nothing (e.g. it was erased) -/
+def srcCaptureG : St Schema.Def Schema.Info :=
+  run fragA [.insert ⟨2, "X2", .base, .empty⟩, .insert ⟨3, "D1", .term, .union ["X2", "X1"]⟩]
+
+/-- **extract_noCapture_needed_counterexample** (the recorded finding C13-unresolved-capture, in the model):
+every other hypothesis of `extract_status_type_preserved_frag` holds — well-formed source, identity invariant,
+closed selection (the basis of `D1`) — only `NoCapture` fails: `D1` mentions `X1`, which denotes nothing in the
+source and is the alias `ResetAliases` hands to `X2`. The conclusion fails: `D1` is INCORRECT in the source and
+VERIFIED (typification `X1`) in the result, so no renaming relates the two entries. -/
+theorem extract_noCapture_needed_counterexample :
+    WF fragA srcCaptureG ∧ SourceOk realNames srcCaptureG ∧
+    selectedCsts srcCaptureG [2, 3] = some [⟨2, "X2", .base, .empty⟩, ⟨3, "D1", .term, .union ["X2", "X1"]⟩] ∧
+    Closed fragA srcCaptureG [⟨2, "X2", .base, .empty⟩, ⟨3, "D1", .term, .union ["X2", "X1"]⟩] ∧
+    ¬ NoCapture fragA realNames srcCaptureG [⟨2, "X2", .base, .empty⟩, ⟨3, "D1", .term, .union ["X2", "X1"]⟩] ∧
+    srcCaptureG.infoFor fragA 3 = ⟨.incorrect, none⟩ ∧
+    (copyOut fragA realNames srcCaptureG [2, 3]).map (fun r => (r.st.store, r.st.infoFor fragA 3)) =
+      some ([⟨2, "X1", .base, .empty⟩, ⟨3, "D1", .term, .union ["X1", "X1"]⟩], ⟨.verified, some "X1"⟩) ∧
+    ∀ f : String → String, renInfo f (srcCaptureG.infoFor fragA 3) = ⟨.incorrect, none⟩ :=
+  ⟨WF.run fragA_lawful (by decide), ⟨by decide, by decide⟩, by decide, closed_of_closedB (by decide),
+    by decide, by decide, by decide,
+    fun f => by rw [show srcCaptureG.infoFor fragA 3 = ⟨.incorrect, none⟩ from by decide]; rfl⟩
+
+/-- an analysis that is `Lawful` and equivariant but counts the constituents of the skeleton -/
+def countA : Analysis Unit Bool where
+  mentions := fun _ => []
+  rename := fun _ d => d
+  reset := false
+  ok := fun i => i
+  analyse := fun sk _ _ => sk.length == 2
+
+def countEquivariance : Equivariance countA where
+  Ren := Bij
+  app := fun b => b.f
+  inv := Bij.inv
+  renD := fun _ d => d
+  renI := fun _ i => i
+  Good := fun _ _ => True
+  app_inv := fun b n => b.gf n
+  renD_inv := fun _ _ _ => rfl
+  good_inv := fun _ _ _ => trivial
+  mentions_ren := fun _ _ _ => rfl
+  ok_ren := fun _ _ => rfl
+  rename_eq := fun _ _ _ _ _ => rfl
+  analyse_ren := by
+    intro b sk ctx ctx' c _ _
+    show ((renSk b.f sk).length == 2) = (sk.length == 2)
+    unfold renSk
+    rw [List.length_map]
+
+/-- **skeleton_locality_needed_counterexample.** `Lawful` + `Equivariance` alone do not give the preservation
+clause for a PART of a schema: both laws leave the skeleton argument of the analysis unrestricted. `countA`
+satisfies both, the selection `{X1}` of the schema `X1 X2` is closed and captures nothing, the identity is an
+admissible renaming that agrees with the table — and the entry of `X1` changes from `true` to `false`.
+Hence the hypothesis `SkelLocalOn` of the theorems above. -/
+theorem skeleton_locality_needed_counterexample :
+    Lawful countA ∧
+    (let src := run countA [.insert ⟨1, "X1", .base, ()⟩, .insert ⟨2, "X2", .base, ()⟩]
+     WF countA src ∧ SourceOk realNames src ∧ Closed countA src [⟨1, "X1", .base, ()⟩] ∧
+     NoCapture countA realNames src [⟨1, "X1", .base, ()⟩] ∧
+     aliasTable realNames ([⟨1, "X1", .base, ()⟩] : List (Cst Unit)) = [] ∧
+     src.infoFor countA 1 = true ∧
+     (copyOut countA realNames src [1]).map (fun r => r.st.infoFor countA 1) = some false) := by
+  have hl : Lawful countA := ⟨rfl, fun _ _ _ _ _ => rfl, fun _ _ _ _ _ hm _ _ => by cases hm⟩
+  exact ⟨hl, WF.run hl (by decide), ⟨by decide, by decide⟩, closed_of_closedB (by decide), by decide,
+    by decide, by decide, by decide⟩
+
+end CCVerif.ExtractGen
